@@ -7,6 +7,7 @@ import (
 	gofs "io/fs"
 	"os"
 	"path/filepath"
+	"sort"
 	"strings"
 	"time"
 
@@ -20,6 +21,7 @@ func init() {
 	kinds[0x1002] = run1002
 	kinds[0x1003] = run1003
 	kinds[0x1004] = run1004
+	kinds[0x1005] = run1005
 	props["C10"] = genC10
 }
 
@@ -248,6 +250,77 @@ func realFilterWalk(view []*MNode, inc, exc []string, mt Sx, wi *walkInfo) Sx {
 	return L(N(0), is, es, L(tbl...), L(calls...))
 }
 
+// kind 1005: a HISTORY of walks on ONE filterFS value (single goroutine, deterministic).
+// input: (view include-raw exclude-raw maptable history), history = (walk ...), walk = (n0 n1 ...):
+// a top-level walk; while it is running, when its callback is called for the n0-th time (0-based) a
+// NESTED walk of the same FS value is started from inside the callback and run to completion before
+// the callback returns; that walk nests again at its n1-th callback, and so on.
+// output: (#ffff) | (#0 inc exc ptable (calls ...)) with one calls list per walk STARTED, in start order.
+func run1005(in Sx) Sx {
+	defer quietStderr()()
+	return guardedC10(func() Sx {
+		view := SxView(in.L[0])
+		inc, exc, mt := sxStrings(in.L[1]), sxStrings(in.L[2]), in.L[3]
+		f, err := fsutil.NewFilterFS(&MemFS{Roots: view}, &fsutil.FilterOpt{IncludePatterns: inc, ExcludePatterns: exc, Map: mapFromTable(mt)})
+		if err != nil {
+			return L(N(0xffff))
+		}
+		var walks [][]Sx
+		bad := false
+		var do func(nest []int)
+		do = func(nest []int) {
+			idx := len(walks)
+			walks = append(walks, nil)
+			n := 0
+			err := f.Walk(context.Background(), "/", func(p string, d gofs.DirEntry, err error) error {
+				if err != nil {
+					bad = true
+					return err
+				}
+				fi, err := d.Info()
+				if err != nil {
+					bad = true
+					return err
+				}
+				st := fi.Sys().(*types.Stat)
+				if st.Path != p {
+					bad = true
+				}
+				walks[idx] = append(walks[idx], StatSx(st.CloneVT()))
+				if len(nest) > 0 && n == nest[0] {
+					do(nest[1:])
+				}
+				n++
+				return nil
+			})
+			if err != nil {
+				bad = true
+			}
+		}
+		for _, w := range in.L[4].L {
+			var nest []int
+			for _, x := range w.L {
+				nest = append(nest, x.Int())
+			}
+			do(nest)
+		}
+		if bad {
+			return L(N(0xfffc))
+		}
+		is, err1 := patsSx(inc)
+		es, err2 := patsSx(exc)
+		if err1 != nil || err2 != nil {
+			return L(N(0xfffb))
+		}
+		tbl := pmatchTable(append(append([]string{}, inc...), exc...), withPrefixes(viewPaths(view)))
+		ws := make([]Sx, len(walks))
+		for i, w := range walks {
+			ws[i] = L(w...)
+		}
+		return L(N(0), is, es, L(tbl...), L(ws...))
+	})
+}
+
 // real fsutil.NewFilterFS(MemFS(view), {include, exclude, map}).Walk(ctx, "/", fn)
 func run1001(in Sx) Sx {
 	defer quietStderr()()
@@ -360,6 +433,80 @@ func run1004(in Sx) Sx {
 
 var c10Names = []string{"a", "b", "ab", "c", "d", "x", "y", "a.b", "a b", "é", "b+", "ba", "a-b", "(a)", "a$"}
 var c10UnsafeNames = []string{"a{2}", "aa", "a|b", "xb", "\x80", "\x81", "{a}"}
+
+// c10MetaNames: entry names that contain pattern metacharacters literally; a pattern addresses them
+// by backslash-escaping ("app/\[id\]/page"): such a pattern has NO unescaped wildcard, but it is not
+// a byte prefix of the paths it matches, so it must not arm the prefix-only SkipDir shortcuts
+var c10MetaNames = []string{"[id]", "a*", "b?", "x]", "a\\b", "[a", "^a", "*"}
+
+// c10Escape: the pattern that matches exactly the path p: every metacharacter and backslash escaped
+func c10Escape(p string) string {
+	var b strings.Builder
+	for i := 0; i < len(p); i++ {
+		if strings.IndexByte("*?[]^\\", p[i]) >= 0 {
+			b.WriteByte('\\')
+		}
+		b.WriteByte(p[i])
+	}
+	return b.String()
+}
+
+// c10EscapedList: a list WITHOUT any unescaped wildcard in the patterns the classification looks
+// at, one of them with escaped metacharacters in directory components of a deep path:
+// side 'i': include list = escaped deep path (optionally + one trailing glob) + plain literals;
+// side 'e': exclude list = a covering literal + the escaped deep path as '!' exception.
+func c10EscapedList(r *Rng, paths []string, classes map[string]int) (out []string, side byte) {
+	var deep, plain []string
+	for _, p := range paths {
+		if strings.ContainsAny(p, "*?[]^\\") {
+			if strings.Count(p, "/") >= 1 {
+				deep = append(deep, p)
+			}
+		} else {
+			plain = append(plain, p)
+		}
+	}
+	if len(deep) == 0 {
+		return nil, 'i'
+	}
+	sort.Slice(deep, func(a, b int) bool { return strings.Count(deep[a], "/") > strings.Count(deep[b], "/") })
+	t := deep[r.Intn(1+len(deep)/2)] // prefer the deepest
+	esc := c10Escape(t)
+	if r.Chance(25) {
+		esc += Pick(r, []string{"/*", "/**"})
+	}
+	side = "ie"[r.Intn(2)]
+	if side == 'i' {
+		out = append(out, esc)
+		classes["escaped-literal"]++
+	} else {
+		cover := splitPath(t)[0]
+		if r.Bool() {
+			cover = c10Escape(cover)
+		} else {
+			cover = Pick(r, []string{"*", "**"})
+		}
+		out = append(out, cover, "!"+esc)
+		classes["!escaped-literal"]++
+	}
+	for n := r.Intn(3); n > 0 && len(plain) > 0; n-- {
+		q := Pick(r, plain)
+		if side == 'e' {
+			q = "!" + q
+		}
+		if r.Bool() {
+			out = append(out, q)
+		} else {
+			out = append([]string{q}, out...)
+		}
+	}
+	for _, q := range out {
+		if !validPattern(q) {
+			return nil, side
+		}
+	}
+	return out, side
+}
 
 // bushy, deep views over few names: every shortcut and the lazy emission of parents have
 // something to do
@@ -730,6 +877,10 @@ func genC10(g *Gen) {
 		if i%3 == 0 { // few names: deep chains, many hits
 			names = []string{"a", "b", "ab", "c", "a.b"}
 		}
+		metaNames := i%10 == 7 && !unsafeNames
+		if metaNames {
+			names = append([]string{"a", "b", "app", "c"}, c10MetaNames...)
+		}
 		var view []*MNode
 		if i%4 == 3 && !unsafeNames {
 			view = GenView(r, TreeOpts{MaxEntries: 4 + r.Intn(11), MaxDepth: 4, Names: names, Types: r.Chance(30), Xattrs: r.Chance(20), Owners: true})
@@ -759,11 +910,50 @@ func genC10(g *Gen) {
 			inc = genPatternList(r, paths, view, classes, 0)
 			exc = genPatternList(r, paths, view, classes, 0)
 		}
+		if metaNames { // never build unescaped patterns from names with metacharacters ("[a" is a syntax error)
+			inc, exc = nil, nil
+			tag = "escaped-metachars"
+			if l, side := c10EscapedList(r, paths, classes); l != nil {
+				if side == 'i' {
+					inc = l
+				} else {
+					exc = l
+				}
+			} else if len(paths) > 0 {
+				inc = []string{c10Escape(Pick(r, paths))}
+			}
+		}
 		mt := genMapTable(r, paths, isDir)
 		if unsafeNames {
 			tag += "-unsafe-names"
 		}
 		emit1001(g, view, inc, exc, mt, tag)
+		// the same configuration as a history of walks on one FS value: re-walks and nested walks
+		if i%4 == 2 {
+			var hist []Sx
+			nested, after := false, false
+			for k := 2 + r.Intn(3); k > 0; k-- {
+				var nest []Sx
+				if r.Chance(60) {
+					for d := 1 + r.Intn(2); d > 0; d-- {
+						nest = append(nest, NI(r.Intn(6)))
+					}
+					if len(hist) > 0 {
+						after = true
+					}
+					nested = true
+				}
+				hist = append(hist, L(nest...))
+			}
+			cls := "history"
+			if nested {
+				cls += "+nested"
+			}
+			if after {
+				cls += "+after-completed-walk"
+			}
+			g.Emit(0x1005, L(ViewSx(view), stringsSx(inc), stringsSx(exc), mt, L(hist...)), after && len(inc)+len(exc) > 0, cls+":"+tag)
+		}
 
 		// list evaluation on one path of this view (and sometimes a path outside it)
 		if len(inc) > 0 && len(paths) > 0 {
